@@ -15,7 +15,7 @@ return [parse(start + ''.join(i) + end) for i in itertools.<enum>(components, si
 ```
 `parse(start + … + end)` is modelled by its effect on annotations (`assemble`): labile/static/isotope/unknown/
 N-term come back from `start`, C-term/charge/adducts from `end`, the sequence and the internal mods from the
-joined components. What the text round trip normalises is modelled (`normList`, `normMult`, `normCharge`: an
+joined components. What the text round trip normalises is modelled (`normList`, `normMult`: an
 empty list is not written, a multiplier ≤ 1 is not written, charge 0 is not written); the parser itself is
 modelled elsewhere (C01). Intervals are popped and never come back.
 -/
@@ -97,11 +97,6 @@ def normList : Option (List Mod) → Option (List Mod)
   | some [] => none
   | some l => some (l.map normMult)
 
-/-- `if annotation.charge:` -/
-def normCharge : Option Int → Option Int
-  | some 0 => none
-  | c => c
-
 /-- what `serialize_middle` writes for an annotation without intervals: each residue with its own mods -/
 def residues (a : Annotation) : List (Char × List Mod) :=
   a.seq.zipIdx.map fun p => (p.1, (getInternal a (p.2 : Int)).getD [])
@@ -123,7 +118,7 @@ def assemble (w : Annotation) (comps : List (List (Char × List Mod))) : Annotat
     cterm := normList w.cterm
     internal := internalOf rs
     intervals := none
-    charge := normCharge w.charge
+    charge := w.charge
     adducts := normList w.adducts }
 
 /-- `residues` after `mods = residues.pop_mods(); residues._internal_mods = mods.get('internal')` -/
@@ -159,13 +154,14 @@ def okInternal (a : Annotation) : Bool :=
   | some d => d.all (fun p => 0 ≤ p.1 && p.1 < a.seq.length && !p.2.isEmpty && p.2.all (fun m => m.mult ≥ 1)) &&
               decide (d.map (·.1)).Nodup
 
+/-- adducts are only written behind a charge (`/2[+Na+]`); the charge itself is written whenever it is set (0 included) -/
 def okCharge (a : Annotation) : Bool :=
   match a.charge with
-  | some c => c != 0
+  | some _ => true
   | none => a.adducts.isNone
 
 /-- inputs on which `assemble` is a faithful reading of serialise-then-parse: every present list non-empty,
-multipliers ≥ 1, a non-zero charge, adducts only together with a charge, internal keys inside the sequence and
+multipliers ≥ 1, adducts only together with a charge, internal keys inside the sequence and
 unique. (Mod *values* must in addition survive the text round trip - the parser's concern, C01.) -/
 def expandDomain (a : Annotation) : Bool :=
   okList a.isotope && okList a.static && okList a.labile && okList a.unknown && okList a.nterm && okList a.cterm &&
